@@ -23,6 +23,7 @@ import (
 	"pgregory.net/rapid"
 
 	"verif/harness/h"
+	_ "verif/harness/warm"
 )
 
 var P = h.New("C15", "exploration",
